@@ -1,4 +1,5 @@
 import WP.Model.SwapLoop
+import WP.Model.Packaging
 /-
   History-level state machine: a pool, its abstract tick map, positions, vault balances and clock,
   with the operations the instruction handlers perform (manager call + token movement), and the
@@ -210,6 +211,32 @@ def parseInit (toks : List String) : Option HistState :=
   | _ => none
 
 /-- process one `H …` line: returns the new state (if any) and the output line -/
+def parseSupplied (t : String) : Option Supplied :=
+  match t.splitOn ":" with
+  | [a, k] => do
+    let a ← a.toInt?
+    if k == "s" || k == "c" then pure (.own a)
+    else if k == "u" then pure (.uninit a)
+    else if k == "x" then pure .foreign
+    else if k == "o" then pure .other
+    else none
+  | _ => none
+
+/-- `pswap amount limit ein dir n (start:kind)*`: a swap through the account-packaging layer; the
+    sequence is whatever `buildSeq` derives from the supplied accounts -/
+def pswapOp (s : HistState) (toks : List String) : Option (R HistOp) :=
+  match toks with
+  | amt :: lim :: ein :: dir :: _n :: entries => do
+      let ein ← (if ein == "1" then some true else if ein == "0" then some false else none)
+      let dir ← (if dir == "1" then some true else if dir == "0" then some false else none)
+      let accts ← entries.mapM parseSupplied
+      let amt ← amt.toNat?
+      let lim ← lim.toNat?
+      match buildSeq s.pool.tick s.pool.ts dir accts with
+      | .error e => pure (.error e)
+      | .ok seq => pure (.ok (.swap amt lim ein dir seq))
+  | _ => none
+
 def histLine (st : Option HistState) (toks : List String) : Option HistState × String :=
   match toks with
   | "init" :: rest =>
@@ -220,14 +247,18 @@ def histLine (st : Option HistState) (toks : List String) : Option HistState × 
     match st with
     | none => (st, "bad-op")
     | some s =>
-      match parseOp toks with
+      let parsed : Option (R HistOp) := match toks with
+        | "pswap" :: rest => pswapOp s rest
+        | _ => (parseOp toks).map .ok
+      match parsed with
       | none => (st, "bad-op")
-      | some (.reward i e t) =>
+      | some (.error er) => (some s, s!"err {errName er} | " ++ digest s)
+      | some (.ok (.reward i e t)) =>
         let (s', r) := histReward s i e t
         match r with
         | .ok _ => (some s', "ok | " ++ digest s')
         | .error er => (some s', s!"err {errName er} | " ++ digest s')
-      | some op =>
+      | some (.ok op) =>
         match histStep s op with
         | .ok (s', outs) =>
           let o := if outs.isEmpty then "" else joinSp (outs.map toString) ++ " "
